@@ -144,3 +144,90 @@ func (pt Part) CountRange() (min, max int64) {
 	}
 	return R - 1, R
 }
+
+// OffsetsOf interprets a schedule configuration (the maps/lists that go through
+// pandora's config decoder) with the documented semantics and returns the token
+// offsets from the schedule start and the total duration. Token counts use the
+// upper bound of CountRange; minTokens counts only the tokens that are certain (a token
+// at a near-integer integral may or may not exist after float64 rounding).
+func OffsetsOf(conf interface{}) (offs []time.Duration, dur time.Duration, minTokens int, err error) {
+	var parts []Part
+	var walk func(c interface{}) error
+	dOf := func(m map[string]interface{}, k string) (time.Duration, error) {
+		s, _ := m[k].(string)
+		return time.ParseDuration(s)
+	}
+	fOf := func(v interface{}) float64 {
+		switch x := v.(type) {
+		case float64:
+			return x
+		case int:
+			return float64(x)
+		case int64:
+			return float64(x)
+		}
+		return 0
+	}
+	walk = func(c interface{}) error {
+		switch x := c.(type) {
+		case []interface{}:
+			for _, e := range x {
+				if err := walk(e); err != nil {
+					return err
+				}
+			}
+			return nil
+		case map[string]interface{}:
+			switch x["type"] {
+			case "once":
+				parts = append(parts, Part{IsOnce: true, Once: int64(fOf(x["times"]))})
+			case "const":
+				d, err := dOf(x, "duration")
+				if err != nil {
+					return err
+				}
+				parts = append(parts, Part{A: fOf(x["ops"]), B: fOf(x["ops"]), D: d})
+			case "line":
+				d, err := dOf(x, "duration")
+				if err != nil {
+					return err
+				}
+				parts = append(parts, Part{A: fOf(x["from"]), B: fOf(x["to"]), D: d})
+			case "step":
+				d, err := dOf(x, "duration")
+				if err != nil {
+					return err
+				}
+				parts = append(parts, Profile{Kind: "step", From: fOf(x["from"]), To: fOf(x["to"]), Step: int64(fOf(x["step"])), Dur: d}.Parts()...)
+			case "instance_step":
+				d, err := dOf(x, "stepduration")
+				if err != nil {
+					return err
+				}
+				from, to, st := int64(fOf(x["from"])), int64(fOf(x["to"])), int64(fOf(x["step"]))
+				parts = append(parts, Part{IsOnce: true, Once: from})
+				for i := from + st; i <= to; i += st {
+					parts = append(parts, Part{D: d}, Part{IsOnce: true, Once: st})
+				}
+			default:
+				return fmt.Errorf("unknown schedule type %v", x["type"])
+			}
+			return nil
+		}
+		return fmt.Errorf("unexpected schedule config %T", c)
+	}
+	if err := walk(conf); err != nil {
+		return nil, 0, 0, err
+	}
+	var base time.Duration
+	for _, pt := range parts {
+		min, max := pt.CountRange()
+		minTokens += int(min)
+		for k := int64(0); k < max; k++ {
+			f, _ := pt.TokenNS(k).Float64()
+			offs = append(offs, base+time.Duration(f))
+		}
+		base += pt.D
+	}
+	return offs, base, minTokens, nil
+}
